@@ -26,6 +26,9 @@ def PrecWF (xs : List Ixn) : Prop := ∀ i ∈ xs, i.prec = precOf i.src i.dst
 /-- at most one intention per (peer, source, destination) -/
 def KeysNodup (xs : List Ixn) : Prop := xs.Pairwise fun a b => a.key ≠ b.key
 
+/-- the key determines the intention (weaker than `KeysNodup`: literal repetitions are allowed) -/
+def KeyInj (xs : List Ixn) : Prop := ∀ a ∈ xs, ∀ b ∈ xs, a.key = b.key → a = b
+
 /-- specificity rank: destination exactness counts double -/
 def spec (i : Ixn) : Nat := (if i.dst = star then 0 else 2) + (if i.src = star then 0 else 1)
 
@@ -41,6 +44,15 @@ theorem keysNodup_eq {xs : List Ixn} (h : KeysNodup xs) {a b : Ixn} (ha : a ∈ 
     · exact absurd hk.symm (h.1 a ha')
     · exact ih h.2 ha' hb'
 
+theorem KeysNodup.keyInj {xs : List Ixn} (h : KeysNodup xs) : KeyInj xs :=
+  fun _ ha _ hb hk => keysNodup_eq h ha hb hk
+
+theorem KeyInj.subset {F R : List Ixn} (h : KeyInj F) (hsub : ∀ i ∈ R, i ∈ F) : KeyInj R :=
+  fun a ha b hb hk => h a (hsub a ha) b (hsub b hb) hk
+
+theorem PrecWF.subset {F R : List Ixn} (h : PrecWF F) (hsub : ∀ i ∈ R, i ∈ F) : PrecWF R :=
+  fun i hi => h i (hsub i hi)
+
 theorem precOf_cases (s d : Name) :
     precOf s d = (if d = star then (if s = star then 5 else 6) else (if s = star then 8 else 9)) := by
   unfold precOf countExact; split <;> split <;> simp_all
@@ -55,78 +67,172 @@ theorem find?_sorted_of_max {R : List Ixn} {p : Ixn → Bool} {i : Ixn} (hi : i 
   intro j hj hpj
   rcases hmax j (mem_isort.mp hj) hpj with h | h
   · exact Or.inl h
-  · right; unfold less; simp; omega
+  · right
+    have hne : i.prec ≠ j.prec := by omega
+    simp [less, hne]; omega
 
-theorem mostSpecific_sorted {R : List Ixn} (hwf : PrecWF R) (hk : KeysNodup R) {peer s d : Name}
+theorem mostSpecific_sorted {R : List Ixn} (hwf : PrecWF R) (hk : KeyInj R) {peer s d : Name}
     (hs : s ≠ star) (hd : d ≠ star) :
     (sortIxns R).find? (covers peer s d) = mostSpecific R peer s d := by
-  have E := fun a b (ha : a ∈ R) (hb : b ∈ R) (h : a.key = b.key) => keysNodup_eq hk ha hb h
+  have E : ∀ a b, a ∈ R → b ∈ R → a.peer = b.peer → a.src = b.src → a.dst = b.dst → a = b :=
+    fun a b ha hb h1 h2 h3 => hk a ha b hb (by simp [Ixn.key, h1, h2, h3])
   have P := fun j (hj : j ∈ R) => (hwf j hj).trans (precOf_cases j.src j.dst)
+  have N : ∀ {a b c : Name}, R.find? (hasKey a b c) = none → ∀ j ∈ R, ¬ (j.peer = a ∧ j.src = b ∧ j.dst = c) := by
+    intro a b c h j hj
+    have := List.find?_eq_none.mp h j hj
+    simpa [hasKey, and_assoc] using this
+  have S : ∀ {a b c : Name} {i : Ixn}, R.find? (hasKey a b c) = some i → i ∈ R ∧ i.peer = a ∧ i.src = b ∧ i.dst = c := by
+    intro a b c i h
+    have := List.find?_some h
+    exact ⟨List.mem_of_find?_eq_some h, by simpa [hasKey, and_assoc] using this⟩
+  have C : ∀ j, covers peer s d j = true ↔ (j.peer = peer ∧ (j.src = star ∨ j.src = s) ∧ (j.dst = star ∨ j.dst = d)) := by
+    intro j; simp [covers, and_assoc]
   unfold mostSpecific
   cases h1 : R.find? (hasKey peer s d) with
   | some i =>
-    have hi := List.mem_of_find?_eq_some h1
-    have hki := List.find?_some h1
-    simp only [Option.some_orElse, Option.orElse_eq_orElse, Option.or_some] 
+    obtain ⟨hi, hki⟩ := S h1
+    have pi := P i hi
+    simp only [Option.orElse_eq_orElse, Option.some_or]
     apply find?_sorted_of_max hi
-    · simp [hasKey, covers] at hki ⊢; grind
+    · rw [C]; grind
     · intro j hj hc
+      rw [C] at hc
       have := E j i hj hi
-      have pj := P j hj; have pi := P i hi
-      simp [hasKey, covers, Ixn.key] at hki hc this
+      have pj := P j hj
       grind
   | none =>
-    have n1 := List.find?_eq_none.mp h1
+    have n1 := N h1
     cases h2 : R.find? (hasKey peer star d) with
     | some i =>
-      have hi := List.mem_of_find?_eq_some h2
-      have hki := List.find?_some h2
-      simp only [Option.orElse_eq_orElse, Option.none_or, Option.or_some]
+      obtain ⟨hi, hki⟩ := S h2
+      have pi := P i hi
+      simp only [Option.orElse_eq_orElse, Option.none_or, Option.some_or]
       apply find?_sorted_of_max hi
-      · simp [hasKey, covers] at hki ⊢; grind
+      · rw [C]; grind
       · intro j hj hc
+        rw [C] at hc
         have := E j i hj hi
-        have pj := P j hj; have pi := P i hi
+        have pj := P j hj
         have := n1 j hj
-        simp [hasKey, covers, Ixn.key] at hki hc this
         grind
     | none =>
-      have n2 := List.find?_eq_none.mp h2
+      have n2 := N h2
       cases h3 : R.find? (hasKey peer s star) with
       | some i =>
-        have hi := List.mem_of_find?_eq_some h3
-        have hki := List.find?_some h3
-        simp only [Option.orElse_eq_orElse, Option.none_or, Option.or_some]
+        obtain ⟨hi, hki⟩ := S h3
+        have pi := P i hi
+        simp only [Option.orElse_eq_orElse, Option.none_or, Option.some_or]
         apply find?_sorted_of_max hi
-        · simp [hasKey, covers] at hki ⊢; grind
+        · rw [C]; grind
         · intro j hj hc
+          rw [C] at hc
           have := E j i hj hi
-          have pj := P j hj; have pi := P i hi
-          have := n1 j hj; have := n2 j hj
-          simp [hasKey, covers, Ixn.key] at hki hc this
+          have pj := P j hj
+          have := n1 j hj
+          have := n2 j hj
           grind
       | none =>
-        have n3 := List.find?_eq_none.mp h3
+        have n3 := N h3
         cases h4 : R.find? (hasKey peer star star) with
         | some i =>
-          have hi := List.mem_of_find?_eq_some h4
-          have hki := List.find?_some h4
+          obtain ⟨hi, hki⟩ := S h4
           simp only [Option.orElse_eq_orElse, Option.none_or]
           apply find?_sorted_of_max hi
-          · simp [hasKey, covers] at hki ⊢; grind
+          · rw [C]; grind
           · intro j hj hc
+            rw [C] at hc
             have := E j i hj hi
-            have := n1 j hj; have := n2 j hj; have := n3 j hj
-            simp [hasKey, covers, Ixn.key] at hki hc this
+            have := n1 j hj
+            have := n2 j hj
+            have := n3 j hj
             grind
         | none =>
-          have n4 := List.find?_eq_none.mp h4
+          have n4 := N h4
           simp only [Option.orElse_eq_orElse, Option.none_or]
           apply find?_none_of_forall
           intro j hj
-          have := n1 j (mem_isort.mp hj); have := n2 j (mem_isort.mp hj)
-          have := n3 j (mem_isort.mp hj); have := n4 j (mem_isort.mp hj)
-          simp [hasKey, covers] at *
-          grind
+          have hj' := mem_isort.mp hj
+          have := n1 j hj'
+          have := n2 j hj'
+          have := n3 j hj'
+          have := n4 j hj'
+          cases hc : covers peer s d j with
+          | false => rfl
+          | true => rw [C] at hc; grind
+
+/-- `find?` for an exact key only depends on which elements of that key are present -/
+theorem find?_hasKey_congr {F R : List Ixn} (hF : KeyInj F) (hsub : ∀ i ∈ R, i ∈ F) {a b c : Name}
+    (hall : ∀ i ∈ F, hasKey a b c i = true → i ∈ R) : R.find? (hasKey a b c) = F.find? (hasKey a b c) := by
+  cases hf : F.find? (hasKey a b c) with
+  | none =>
+    apply find?_none_of_forall
+    intro j hj
+    have := List.find?_eq_none.mp hf j (hsub j hj)
+    simpa using this
+  | some i =>
+    have hi := List.mem_of_find?_eq_some hf
+    have hki := List.find?_some hf
+    cases hr : R.find? (hasKey a b c) with
+    | none =>
+      have := List.find?_eq_none.mp hr i (hall i hi hki)
+      simp [hki] at this
+    | some i' =>
+      have hi' := hsub i' (List.mem_of_find?_eq_some hr)
+      have hki' := List.find?_some hr
+      congr 1
+      apply hF i' hi' i hi
+      simp [hasKey] at hki hki'
+      simp [Ixn.key, hki, hki']
+
+/-- `mostSpecific` only looks at the four candidate keys -/
+theorem mostSpecific_congr {F R : List Ixn} (hF : KeyInj F) (hsub : ∀ i ∈ R, i ∈ F) {peer s d : Name}
+    (hall : ∀ i ∈ F, covers peer s d i = true → i ∈ R) : mostSpecific R peer s d = mostSpecific F peer s d := by
+  unfold mostSpecific
+  rw [find?_hasKey_congr hF hsub, find?_hasKey_congr hF hsub, find?_hasKey_congr hF hsub, find?_hasKey_congr hF hsub]
+  all_goals
+    intro i hi hk
+    apply hall i hi
+    simp [hasKey, covers] at hk ⊢
+    simp [hk]
+
+/-- lists with the same members have the same most specific intention -/
+theorem mostSpecific_ext {F G : List Ixn} (hF : KeyInj F) (h : ∀ i, i ∈ G ↔ i ∈ F) (peer s d : Name) :
+    mostSpecific G peer s d = mostSpecific F peer s d :=
+  mostSpecific_congr hF (fun i hi => (h i).mp hi) (fun i hi _ => (h i).mpr hi)
+
+/-- on a sorted list, a restriction `q` of the predicate does not change the first match when every
+    match outside `q` has a strictly earlier match inside `q` -/
+theorem find?_sorted_restrict {α : Type} {lt : α → α → Bool} {p q : α → Bool} {xs : List α} (hs : Sorted lt xs)
+    (hirr : ∀ a, lt a a = false)
+    (h : ∀ x ∈ xs, p x = true → q x = false → ∃ y ∈ xs, p y = true ∧ q y = true ∧ lt y x = true) :
+    xs.find? p = xs.find? (fun x => p x && q x) := by
+  induction xs with
+  | nil => rfl
+  | cons x xs ih =>
+    unfold Sorted at hs ih
+    rw [List.pairwise_cons] at hs
+    rw [List.find?_cons, List.find?_cons]
+    cases hpx : p x with
+    | false =>
+      simp only [Bool.false_and]
+      apply ih hs.2
+      intro x' hx' hp' hq'
+      obtain ⟨y, hy, hpy, hqy, hlt⟩ := h x' (List.mem_cons_of_mem _ hx') hp' hq'
+      rcases List.mem_cons.mp hy with rfl | hy'
+      · rw [hpx] at hpy; cases hpy
+      · exact ⟨y, hy', hpy, hqy, hlt⟩
+    | true =>
+      cases hqx : q x with
+      | true => simp
+      | false =>
+        exfalso
+        obtain ⟨y, hy, _, hqy, hlt⟩ := h x List.mem_cons_self hpx hqx
+        rcases List.mem_cons.mp hy with rfl | hy'
+        · rw [hirr] at hlt; cases hlt
+        · rw [hs.1 y hy'] at hlt; cases hlt
+
+theorem less_irrefl (a : Ixn) : less a a = false := by
+  have := bytes_irrefl a.dst
+  simp [less, bLt, this]
 
 end CV.Ixn
